@@ -65,11 +65,17 @@ package retry
 //@ func (*eventQueue).getHead() (result)
 //@   props C19 C09
 //@   modifies inferred:(*eventQueue).getHead
+// push appends one fresh node carrying the event; no waiting entry is changed or dropped (every
+// unresolved revision stays queued until its own check), so the least unresolved revision reported
+// to Compact can only be lowered by a push of a smaller one
 //@ func (*eventQueue).push(event)
 //@   props C19 C09
 //@   nosafety
-//@   modifies inferred:(*eventQueue).push
+//@   modifies eventQueue.queueSize eventQueue.head eventQueue.tail eventNode.next
 //@   ensures [appended-at-the-tail] e.tail != nil && e.tail.event == event && (locked(e.head) != nil ==> e.head == locked(e.head))
+//@   ensures [one-more-entry] locked(e.queueSize) < 0x4000000000000000 ==> e.queueSize == locked(e.queueSize)+1
+// (the new node is unpublished until linked; that the waiting tail is a different object is not expressible here)
+//@   ensures [linked-behind-the-old-tail] locked(e.tail) != nil ==> locked(e.tail).next == e.tail && (locked(e.tail) != e.tail ==> locked(e.tail).event == locked(e.tail.event))
 //@ func (*eventQueue).pop()
 //@   props C19 C09
 //@   nosafety
